@@ -120,6 +120,66 @@ theorem c19_floor (ra1 dec1 ra2 dec2 f : ℝ) :
   · exact (max_eq_right h.le).symm
   · exact (max_eq_left (not_lt.mp h)).symm
 
+/-! ## the `psi` data field and the Gaussian point-spread density the PDFs consume -/
+
+/-- **the `psi` trial-data field**: one value per (source, event) pair, in the order of the pairs;
+for a pair of valid indices it is the angle between the unit vectors of *that* event and *that*
+source (raised to the floor, if one is given); an invalid index is an error, never a value. -/
+theorem c19_psi_field (srcs evts : List (ℝ × ℝ)) (pairs : List (ℕ × ℕ)) (fl : Option ℝ) :
+    (psiField srcs evts pairs fl).length = pairs.length ∧
+    ∀ (i : ℕ) (hi : i < pairs.length),
+      (∀ (hk : (pairs[i]).1 < srcs.length) (he : (pairs[i]).2 < evts.length),
+        (psiField srcs evts pairs fl)[i]? = some (some (
+          let s := srcs[(pairs[i]).1]; let e := evts[(pairs[i]).2]
+          let psi := arccos (dot (unitVec e.1 e.2) (unitVec s.1 s.2))
+          match fl with | none => psi | some f => max psi f))) ∧
+      ((srcs.length ≤ (pairs[i]).1 ∨ evts.length ≤ (pairs[i]).2) →
+        (psiField srcs evts pairs fl)[i]? = some none) := by
+  refine ⟨by simp [psiField], fun i hi => ⟨fun hk he => ?_, fun h => ?_⟩⟩
+  · simp only [psiField, List.getElem?_map, List.getElem?_eq_getElem hi, Option.map_some,
+      List.getElem?_eq_getElem hk, List.getElem?_eq_getElem he]
+    congr 2
+    cases fl with
+    | none => exact angSep_eq_arccos_dot ..
+    | some f => rw [(c19_floor ..).1, angSep_eq_arccos_dot]
+  · simp only [psiField, List.getElem?_map, List.getElem?_eq_getElem hi, Option.map_some]
+    rcases h with h | h
+    · rw [List.getElem?_eq_none h]
+    · rw [List.getElem?_eq_none h]
+      cases srcs[(pairs[i]).1]? <;> rfl
+
+example : ((0 : ℕ), (1 : ℕ)).1 < [((1 : ℝ), (2 : ℝ))].length ∧ ((0 : ℕ), (1 : ℕ)).2 < [((1 : ℝ), (2 : ℝ)), (3, 4)].length := by
+  simp
+
+/-- the Gaussian point-spread density of a pair is `exp(−ψ²/(2σ²)) / (2πσ²)` with ψ the angle
+between the unit vectors; it is positive and largest at ψ = 0 -/
+theorem c19_psf_pd (sigma evtRa evtDec srcRa srcDec : ℝ) (hs : sigma ≠ 0) :
+    gaussPsfPd sigma evtRa evtDec srcRa srcDec =
+      rexp (-(arccos (dotRD srcRa srcDec evtRa evtDec)) ^ 2 / (2 * sigma ^ 2)) / (2 * π * sigma ^ 2) ∧
+    0 < gaussPsfPd sigma evtRa evtDec srcRa srcDec ∧
+    gaussPsfPd sigma evtRa evtDec srcRa srcDec ≤ gaussPsfPd sigma srcRa srcDec srcRa srcDec := by
+  have h2 : 0 < sigma ^ 2 := by positivity
+  have e : ∀ a b : ℝ, gaussPsfPd sigma a b srcRa srcDec =
+      rexp (-(arccos (dotRD srcRa srcDec a b)) ^ 2 / (2 * sigma ^ 2)) / (2 * π * sigma ^ 2) := by
+    intro a b
+    simp only [gaussPsfPd, TranscReal.pi_def, TranscReal.exp_def, angSep_eq_arccos]
+    rw [show -(1 / 2 : ℝ) * (arccos (dotRD srcRa srcDec a b) * arccos (dotRD srcRa srcDec a b) / (sigma * sigma))
+        = -(arccos (dotRD srcRa srcDec a b)) ^ 2 / (2 * sigma ^ 2) by field_simp]
+    field_simp
+  refine ⟨e _ _, ?_, ?_⟩
+  · rw [e]; positivity
+  · rw [e, e]
+    apply div_le_div_of_nonneg_right _ (by positivity)
+    apply Real.exp_le_exp.mpr
+    have h0 : arccos (dotRD srcRa srcDec srcRa srcDec) = 0 := by
+      rw [← angSep_eq_arccos]; exact c19_zero_of_same_input ..
+    rw [h0]
+    have : 0 ≤ (arccos (dotRD srcRa srcDec evtRa evtDec)) ^ 2 / (2 * sigma ^ 2) := by positivity
+    simp only [ne_eq, OfNat.ofNat_ne_zero, not_false_eq_true, zero_pow, neg_zero, zero_div]
+    rw [neg_div]; linarith
+
+example : (0.01 : ℝ) ≠ 0 := by norm_num
+
 /-! ## azimuth ↔ right ascension -/
 
 /-- composing the transform with itself reduces the azimuth modulo 2π (any time, any constants) -/
